@@ -100,10 +100,44 @@ async def sk_rename_inbox_with_watcher(hp, w, rnd, ctx):
     await w.op_noop(a)
 
 
+async def sk_selected_mailbox_deleted_and_created_again(hp, w, rnd, ctx):
+    """A has a mailbox selected that B deletes; it stays as a placeholder
+    (it has an inferior) and is created again later; A has moved on to INBOX.
+    What then arrives in the re-created mailbox is none of A's business: A's
+    view of INBOX only ever changes by what happens in INBOX."""
+    a, b = w.session(), w.session()
+    c = w.session()
+    await w.op_create(a, "ph/child")
+    for i in range(2):
+        await w.op_append(a, "ph")
+    for i in range(3):
+        await w.op_append(a, "INBOX")
+    await w.op_select(a, "ph")
+    await w.op_select(c, "ph", examine=True)
+    await w.op_delete(b, "ph")
+    await w.op_select(a, "INBOX")
+    await w.op_noop(c)
+    await w.op_create(b, "ph")
+    await w.op_append(b, "ph")
+    await w.op_noop(a)
+    w.deliver("ph", 2)
+    await w.rig.advance(25)
+    await w.op_noop(a)
+    await w.op_fetch(a, [1, 2, 3], "UID FLAGS")
+    await w.op_select(b, "ph")
+    await w.op_store(b, [1], "add", ["\\Flagged"])
+    await w.op_noop(a)
+    await w.op_select(c, "INBOX")
+    await w.op_append(b, "ph")
+    await w.op_noop(c)
+    await w.op_noop(a)
+    await w.observe()
+
+
 class C01(HistProp):
     prop = PROP
     skeletons = [sk_expunge_then_delivery, sk_expunge_then_append, sk_expunge_then_copy_in, sk_expunge_while_idling,
-                 sk_move_out_selected_twice, sk_move_with_pending_delivery, sk_uid_fetch_behind_expunge, sk_rename_inbox_with_watcher]
+                 sk_move_out_selected_twice, sk_move_with_pending_delivery, sk_uid_fetch_behind_expunge, sk_rename_inbox_with_watcher, sk_selected_mailbox_deleted_and_created_again]
     weights = {"store_del": 10, "expunge": 8, "noop": 10, "deliver": 6, "idle": 4, "move": 5, "deliver_stalled": 2}
     pack_limits = [100, 100, 6]
 
